@@ -828,8 +828,8 @@ fn main() {
     let schema: Value = serde_json::from_str(&std::fs::read_to_string(&schema_path).unwrap_or_else(|e| panic!("cannot read {schema_path}: {e}"))).expect("schema json");
     let variants: Vec<Value> = schema["variants"].as_array().cloned().unwrap_or_default();
     let thorough = a.thorough();
-    let per_variant = if thorough { 120 } else { 9 };
-    let n_hist = if thorough { 400 } else { 40 };
+    let per_variant = if thorough { 120 } else { 20 };
+    let n_hist = if thorough { 400 } else { 100 };
     let mut r = Rng::new(a.seed);
     let mut w = CaseWriter::new(&a.out, "Base.Json Model.Wire Gen.EventSchema", "check_case", "model_obs", 40);
     let mut distinct = Distinct::default();
